@@ -90,6 +90,9 @@ def _cargo(cwd, args, out, config, target, extra_env=None):
     return r
 
 
+_HARNESS_TMP = []
+
+
 def _sync_lock(crate_dir):
     """Harness crates path-depending on the repository use its Cargo.lock.  When VERIF_REPO points
     somewhere else than /repo (scratch worktrees used for mutation testing) the harness crate is
@@ -97,6 +100,7 @@ def _sync_lock(crate_dir):
     src = os.path.join(REPO, "Cargo.lock")
     if os.path.realpath(REPO) != "/repo":
         tmp = tempfile.mkdtemp(prefix="harness-", dir=WORK)
+        _HARNESS_TMP.append(tmp)
         dst_dir = os.path.join(tmp, os.path.basename(crate_dir))
         shutil.copytree(crate_dir, dst_dir, ignore=shutil.ignore_patterns("target", "Cargo.lock"))
         ct = os.path.join(dst_dir, "Cargo.toml")
@@ -133,9 +137,9 @@ def _build_kind(kind, outdir, log):
         return r
     finally:
         shutil.rmtree(tmp_target, ignore_errors=True)
-        for d in os.listdir(WORK):
-            if d.startswith("harness-"):
-                shutil.rmtree(os.path.join(WORK, d), ignore_errors=True)
+        for d in _HARNESS_TMP:
+            shutil.rmtree(d, ignore_errors=True)
+        del _HARNESS_TMP[:]
 
 
 class BuildFailure(Exception):
@@ -150,21 +154,32 @@ class BuildFailure(Exception):
 def ensure_facts(kinds):
     """Return the directory holding the fact files for the current tree."""
     os.makedirs(WORK, exist_ok=True)
-    lock = open(os.path.join(WORK, ".lock"), "w")
-    fcntl.flock(lock, fcntl.LOCK_EX)
+    glock = open(os.path.join(WORK, ".lock"), "w")
+    fcntl.flock(glock, fcntl.LOCK_EX)
     try:
+        # global section: the driver binary and the clean-up of stale directories
         ensure_driver()
         h = tree_hash()
         outdir = os.path.join(WORK, h)
         os.makedirs(outdir, exist_ok=True)
+        os.utime(outdir, None)
         # drop facts of older trees (keep disk use flat)
         for d in os.listdir(WORK):
             p = os.path.join(WORK, d)
-            if os.path.isdir(p) and d != h and (d.startswith("tgt-") is False):
+            if os.path.isdir(p) and d != h and not d.startswith("tgt-") and not d.startswith("harness-") \
+                    and d not in ("evidence-scratch",):
                 if time.time() - os.path.getmtime(p) > 7200:
                     shutil.rmtree(p, ignore_errors=True)
-            elif os.path.isdir(p) and d.startswith("tgt-") and time.time() - os.path.getmtime(p) > 3600:
+            elif os.path.isdir(p) and (d.startswith("tgt-") or d.startswith("harness-")) \
+                    and time.time() - os.path.getmtime(p) > 3600:
                 shutil.rmtree(p, ignore_errors=True)
+    finally:
+        fcntl.flock(glock, fcntl.LOCK_UN)
+        glock.close()
+    # per-tree section: different trees (scratch worktrees of the seeded / benign corpora) build concurrently
+    lock = open(os.path.join(outdir, ".lock"), "w")
+    fcntl.flock(lock, fcntl.LOCK_EX)
+    try:
         with open(os.path.join(outdir, "build.log"), "a") as log:
             for kind in kinds:
                 need = [f for f in KINDS[kind] if not _nonempty(os.path.join(outdir, f))]
